@@ -75,8 +75,10 @@ CHECKS = {
           "weakness, TLC-simulated behaviours, bounded-preemption schedules and random schedules are replayed lock-operation by "
           "lock-operation on real LocalShare objects plus the real LocalBuilder._useSharedPackage/_installSharedPackage under the "
           "deterministic scheduler, with the P oracle evaluated on the real store after every operation; thorough adds real "
-          "multi-process stress. Bounded model checking plus conformance, not a proof.",
-  "design_ref": "DESIGN.md section 4, C15",
+          "multi-process stress; traces recorded from real concurrent OS processes (one event per spec action, ordered by a "
+          "counter under flock taken while the protecting store lock is held) are validated against TraceSharedStore.tla "
+          "with every P invariant evaluated in every state. Bounded model checking plus conformance, not a proof.",
+  "design_ref": "DESIGN.md section 4, C15 and 4.22",
   "note": "vf.sched/vf.fsint interposition of os/open/fcntl/shutil names in bob.share and bob.builder; in-memory BobState stand-in; atomic rename, flock and symlink; no crashes of share operations; build-id determines content; virtual mtime clock",
   "technique": "explicit-state model checking with per-operation actions and Weak-set variants; counterexample-guided confirmation on the code; schedule replay under a deterministic scheduler; systematic two-preemption and seeded random scheduling; multi-process stress (thorough)",
  },
@@ -99,7 +101,9 @@ CHECKS = {
           "and NoTempUnderName; TLC behaviours are replayed op by op into real LocalArchive objects under the deterministic "
           "scheduler and fs interposer with a reader oracle after every real fs op (byte identity with a solo upload, full "
           "gzip+tar read, never changes once present); every op of every solo scenario is additionally used as kill/EIO/ENOSPC "
-          "point; thorough adds real process races. Bounded model checking plus conformance, not a proof.",
+          "point; real concurrent uploader/mirror/reader processes are traced (call/return of every archive fs operation, global "
+          "ticket under flock) and the traces validated against TraceArchivePublish.tla, corrupted copies of accepted traces "
+          "must be rejected in the same batch. Bounded model checking plus conformance, not a proof.",
   "design_ref": "DESIGN.md section 4, C09",
   "note": "vf.sched/vf.fsint interposition on bob.archive's os/open/NamedTemporaryFile names; POSIX atomic link/rename on the archive fs; kill modelled immediately before an fs op; payload identity compared after the gzip header; python gzip/tarfile as independent validity oracle",
   "technique": "TLA+/TLC exhaustive + vacuity configs; planned-fault -simulate generation; deterministic-scheduler replay with a reader oracle after every real fs op; fault/crash enumeration; multi-process stress (thorough)",
@@ -135,7 +139,7 @@ CHECKS = {
           "source add/modify/modify-in-subdirectory/delete, reverts) is model-checked exhaustively within small bounds for "
           "IncrementalEqClean and Idempotent; TLC counterexamples of single weakenings of the skip/prune/re-run mechanism and "
           "TLC-simulated histories are replayed with real `bob dev` / `bob build` runs (-j1/-j4, -D defines, import with and "
-          "without prune); oracle = real clean build of the same project state and the executed-step list of an unchanged "
+          "without prune, plain/--build-only/--force invocations mixed in one history); oracle = real clean build of the same project state and the executed-step list of an unchanged "
           "rebuild. Bounded model checking plus conformance on generated histories, not a proof of the code.",
   "design_ref": "DESIGN.md section 4 (BobBuild.tla, C01) and 4.22",
   "note": "deterministic generated scripts; two packages (one inherited class fragment, one provided tool path, one provided variable are model knobs); release mode, -j4, -D defines and import-without-prune only as replay options judged by the end-to-end oracle",
@@ -171,9 +175,12 @@ CHECKS = {
           "DownloadEqLocal, FullReuse, ArchiveSound and NeverOverwrite; TLC counterexamples of single weakenings of the "
           "build-id and download mechanism and TLC-simulated behaviours are replayed with two real workspaces, a real file "
           "archive and real `bob dev --download MODE [--upload]` runs; oracle = real clean local build, statistics line, "
-          "bucket test of real build-ids against the structural ones. Bounded model checking plus conformance, not a proof.",
+          "bucket test of real build-ids against the structural ones. LiveBuildId.tla (git branch sources, uncommitted edits, the "
+          "archive's commit -> source-Build-Id cache, prediction without checkout) is model-checked for DownloadEqLocal/LiveSound/"
+          "ArchiveSound and its counterexample-directed and simulated behaviours are replayed with a real git upstream. "
+          "Bounded model checking plus conformance, not a proof.",
   "design_ref": "DESIGN.md section 4, C07 and 4.22",
-  "note": "file archive backend; import SCM sources (exact live build-ids: wrong predictions not exercised); host fingerprint emulated by a fingerprintScript printing a harness-controlled file; build step abstracted to the contract checked by C01/C05",
+  "note": "file archive backend; import SCM sources in BobArtifacts (exact live build-ids), git branch sources with live-build-id prediction only in the one-package LiveBuildId stage; host fingerprint emulated by a fingerprintScript printing a harness-controlled file; build step abstracted to the contract checked by C01/C05",
   "technique": "TLA+ spec + TLC exhaustive check; counterexample-directed and simulated behaviours replayed into real bob runs on two workspaces sharing a file archive; oracle real clean local build",
  },
  "C20": {
@@ -206,7 +213,7 @@ CHECKS = {
  "C11": {
   "text": "DirHash.tla models the directory walk and the persistent hash cache step-wise after FileIndex (merge of old index and "
           "sorted walk with '/'-suffixed directory keys). TLC checks CacheTransparent/IndexSorted/IndexNeverLies exhaustively "
-          "over every sequence of <=3 (thorough <=4) create/modify/same-size-rewrite/same-mtime-replace/chmod/delete/rename/"
+          "over every sequence of <=3 (thorough <=4) create/modify/same-size-rewrite/same-mtime-replace/same-mtime-in-place-rewrite/chmod/delete/rename/"
           "type-replacement operations from 6 base trees and over all (old index, tree) pairs. All TLC-enumerated 2-step "
           "behaviours plus simulated 8-step behaviours are replayed on real directories, comparing hashDirectory with and "
           "without cache, an independent canonical SHA-1 serialisation and (drift only) the real cache file against the model "
@@ -233,7 +240,7 @@ CHECKS = {
           "kill between every two persistent-state updates or destructive file-system effects and inside scripts) is "
           "model-checked exhaustively within small bounds; TLC counterexamples of single weakenings of the mechanism "
           "(prune before reset, no invalidation before run, inputs recorded before run, no prune on digest change, checkout "
-          "state stored before run) and TLC-simulated behaviours are replayed with real bob runs under kill plans / failing "
+          "state stored before run; one replay per class of abort point) and TLC-simulated behaviours, also with --build-only/--force invocations, are replayed with real bob runs under kill plans / failing "
           "scripts on generated projects; oracle = real clean build. Bounded model checking of the design plus conformance on "
           "generated behaviours - not a proof of the code.",
   "design_ref": "DESIGN.md section 4 (BobBuild.tla, C05) and 4.22",
@@ -245,8 +252,10 @@ CHECKS = {
           "stale-lock handling); TLC-simulated behaviours are replayed into the real _BobState under a file-system interposer, "
           "where every prefix of the real op trace x every garbling of unsynced files is loaded by a fresh real instance and "
           "compared with the saved snapshots through the public getters; the recorded op traces are validated back against "
-          "the spec by TLC. Bounded model checking of the design plus conformance on generated behaviours - not a proof of the code.",
-  "design_ref": "DESIGN.md section 4, C10",
+          "the spec by TLC. Thorough tier: Apalache proves an inductive invariant of a typed copy of the protocol (StateCommitApa.tla, "
+          "cross-checked against the original by equal TLC state counts) for unbounded counters, and that it implies every P invariant. "
+          "Bounded model checking of the design plus conformance on generated behaviours - not a proof of the code.",
+  "design_ref": "DESIGN.md section 4, C10 and 4.22",
   "note": "rename assumed atomic/ordered; Adler-32 assumed to detect the generated garblings; fs effects of bob.state go through os/open in its namespace",
   "technique": "TLA+ spec + TLC exhaustive check; TLC-generated behaviours replayed into _BobState with crash-image enumeration; TLC trace validation of recorded fs-op traces",
  },
